@@ -17,26 +17,57 @@ func runRound20(c *Ctx, spec *PropSpec) {
 	switch spec.ID {
 	case "C01":
 		c01DecodedHeaderViewsAreClipped(c)
+		c01PeekedByteAlwaysHandedOver(c)
 	case "C03":
 		retryDecisionFindsTheGlobalTimerArmed(c, "C03.R26")
+		globalTimeoutWrittenOnlyByItsParser(c, "C03.R27")
 	case "C17":
 		retryDecisionFindsTheGlobalTimerArmed(c, "C17.R31")
+		globalTimeoutWrittenOnlyByItsParser(c, "C17.R32")
+	case "C04":
+		// seed C04-15: the index recorded for a virtual host's domains is its slot in routers.virtualHosts only while no
+		// configured virtual host is skipped - a request would select the neighbouring virtual host (C12.R7 under this id)
+		c.Rule("C04.R22", "the index recorded for a virtual host's domains is its slot in the live table: no configured virtual host is skipped, the recorded index is the configuration position", 2)
+		c12IndexAlignedRule(c, "C04.R22")
+	case "C06":
+		c06SchedulerSkipDecidedByConfiguration(c)
 	case "C07":
+		// seed C07-15: bytes a read returns together with EOF are part of the stream - C01.R8 under this id
+		c.Rule("C07.B2e", "bytes returned by a read are delivered to the filters even when the read also reported EOF (a close_notify read together with the last record does not cut the stream short)", 2)
+		c.Alias = map[string]string{"C01.R8": "C07.B2e"}
+		c01ReadBytesDelivered(c)
+		c.Alias = nil
 		c07ReparseRestoresFramerState(c, "C07.B2m")
 	case "C08":
 		c08StreamLayerAllocatesWhatArrived(c)
+		c08H2DispatchGoesOnOnlyAfterSuccess(c)
 	case "C09":
 		c09EndedClientAlwaysLeavesTheIdleList(c)
 	case "C10":
 		c10PoolHostIsStable(c)
 	case "C11":
 		c11HTTP1DrainMarkOnlyRaised(c)
+		c11EveryTurnOfTheReadLoopTestsTheStopChannel(c)
 	case "C12":
 		listenerTLSManagerBuiltFromRecordedConfig(c, "C12.R22")
 	case "C13":
+		c13ContextChosenByTheOrderedWalk(c)
 		listenerTLSManagerBuiltFromRecordedConfig(c, "C13.R32")
 	case "C20":
 		c20SdsSourceReplacedWheneverPresent(c)
+		c20RawRedactorDecodesAnyShape(c)
+	case "C15":
+		c15TrieNodesAreOnlyAdded(c)
+	case "C18":
+		c18ReadLimitIsNotThePeersSetting(c)
+	case "C05":
+		c05RangeScansEndOnlyWithAResult(c)
+	case "C19":
+		// seed C19-15 (the idea of C12-1, found independently for C19): the recorders record - C12.R5 under this id
+		c.Rule("C19.R19", "every configmanager recorder stores what it is given on every path (skips only for nil, missing key, whole-value DeepEqual): what is not recorded is not in the dump", 5)
+		c.Alias = map[string]string{"C12.R5": "C19.R19"}
+		c12Recorders(c)
+		c.Alias = nil
 	}
 }
 
@@ -798,5 +829,669 @@ func c08StreamLayerAllocatesWhatArrived(c *Ctx) {
 	}
 	if n == 0 {
 		c.Unresolved(rule, "no buffer allocation found in the stream layer")
+	}
+}
+
+// =====================================================================================================================
+// Round 16, second wave (fifteenth seeds)
+
+// C20.R14 (seed C20-15): the raw-JSON redactor takes a document of any shape. Its error path returns the text as it is
+// ("invalid JSON can not be marshaled into a dump either") - which is only true while the decode target accepts every
+// valid document. A typed target (map[string]interface{}) turns a valid array or scalar into a decode error and the
+// array's private keys are dumped verbatim. Clause: the value handed to Decode in redactRawJSON is a *interface{}.
+func c20RawRedactorDecodesAnyShape(c *Ctx) {
+	const rule = "C20.R14"
+	c.Rule(rule, "redactRawJSON decodes into an empty interface: every valid JSON document (object, array, scalar) is walked, only invalid text is returned as it is", 1)
+	fn := c.F("pkg/configmanager", "redactRawJSON")
+	if fn == nil {
+		c.Unresolved(rule, "configmanager.redactRawJSON")
+		return
+	}
+	n := 0
+	ord := ordCounter{}
+	for _, cs := range callsIn(fn, false, func(cc *ssa.CallCommon) bool {
+		nm := calleeName(cc)
+		return strings.HasSuffix(nm, "json.Decoder).Decode") || strings.HasSuffix(nm, "json.Unmarshal")
+	}) {
+		args := cs.Instr.Common().Args
+		target := args[len(args)-1]
+		n++
+		ok := false
+		t := stripConv(target).Type()
+		if pt, isP := t.Underlying().(*types.Pointer); isP {
+			if it, isI := pt.Elem().Underlying().(*types.Interface); isI && it.NumMethods() == 0 {
+				ok = true
+			}
+		}
+		c.Check(rule, ord.next(fn, "decodes-any-shape"), cs.Instr.Pos(), ok, "the decode target is *interface{}",
+			"redactRawJSON decodes the document into "+t.String()+": a valid document of another shape (an extend config that is a JSON array, say) fails to decode and the error path returns the text unchanged - with the private keys in it - to the dump")
+	}
+	if n == 0 {
+		c.Fail(rule, funcKey(fn)+":decodes-any-shape", fn.Pos(), "no Decode / Unmarshal call in redactRawJSON")
+	}
+}
+
+// ---------------------------------------------------------------------------------------------------------------------
+// C18.W25 (seed C18-15): SETTINGS_MAX_FRAME_SIZE is directional. The value a peer announces limits what MOSN may send
+// to it (maxFrameSize of the connection, W2); what MOSN accepts is what MOSN announced, set once on the framer. A peer
+// value handed to Framer.SetMaxReadFrameSize makes MFramer.ReadFrame refuse frames that are within MOSN's own
+// advertisement - the reference parses them. Clause: no argument of a SetMaxReadFrameSize call in pkg/module/http2
+// derives from the Val field of a Setting.
+func c18ReadLimitIsNotThePeersSetting(c *Ctx) {
+	const rule = "C18.W25"
+	c.Rule(rule, "the framer's read limit never derives from a peer's SETTINGS value (MAX_FRAME_SIZE limits the sender of the setting's receiver, not MOSN's reader)", 3)
+	pkg := "pkg/module/http2"
+	n := 0
+	for _, fn := range c.PkgFuncs(pkg) {
+		if len(fn.Blocks) == 0 {
+			continue
+		}
+		ord := ordCounter{}
+		for _, cs := range callsIn(fn, false, func(cc *ssa.CallCommon) bool { return methodName(cc) == "SetMaxReadFrameSize" }) {
+			args := cs.Instr.Common().Args
+			if len(args) == 0 {
+				continue
+			}
+			n++
+			v := args[len(args)-1]
+			peer := derivesFrom(v, func(x ssa.Value) bool {
+				t, f, _, isF := loadedField(x)
+				if isF && f == "Val" && strings.HasSuffix(t, "Setting") {
+					return true
+				}
+				if fl, isFl := x.(*ssa.Field); isFl {
+					if st := derefStruct(fl.X.Type()); st != nil && st.Field(fl.Field).Name() == "Val" && strings.HasSuffix(typeName(fl.X.Type()), "Setting") {
+						return true
+					}
+				}
+				return false
+			})
+			c.Check(rule, ord.next(declaredFunc(fn), "read-limit-not-from-peer-setting"), cs.Instr.Pos(), !peer, "the read limit is a value of MOSN's own (constant or configuration)",
+				fn.String()+" sets the framer's read limit from a Setting the peer sent: SETTINGS_MAX_FRAME_SIZE says what the peer is willing to receive, not what it will send - frames between the peer's value and the size MOSN advertised are refused with 'frame too large' although the reference framer parses them, and the request body is cut")
+		}
+	}
+	if n < 3 {
+		c.Unresolved(rule, fmt.Sprintf("SetMaxReadFrameSize call sites in %s: %d found, 3 expected", pkg, n))
+	}
+}
+
+// ---------------------------------------------------------------------------------------------------------------------
+// C05.R12 (seed C05-15): a scan over the host set that looks for a healthy host looks at all of them. HostSet.Range ends
+// the whole iteration when its callback answers false; a callback of a ChooseHost path that answers false for a host it
+// merely does not want (an unhealthy one) ends the scan at the first such host, and the policy returns no host although
+// healthy ones follow. Clause: in the load balancers of pkg/upstream/cluster (subset builders have C15.R16) every false
+// answer of a callback handed to HostSet.Range lies on a path on which the callback stored a result into a captured
+// variable (it found what it was looking for), i.e. a store into a free variable dominates the return.
+func c05RangeScansEndOnlyWithAResult(c *Ctx) {
+	const rule = "C05.R12"
+	c.Rule(rule, "a HostSet.Range callback of a load balancer answers false (which ends the whole scan) only after it stored a result", 1)
+	pkg := "pkg/upstream/cluster"
+	n := 0
+	for _, fn := range c.PkgFuncs(pkg) {
+		if len(fn.Blocks) == 0 {
+			continue
+		}
+		if fn.Signature.Recv() != nil && strings.Contains(typeName(fn.Signature.Recv().Type()), "subsetLoadBalancer") {
+			continue
+		}
+		ord := ordCounter{}
+		for _, cs := range callsIn(fn, false, func(cc *ssa.CallCommon) bool {
+			return cc.IsInvoke() && cc.Method.Name() == "Range" && len(cc.Args) == 1
+		}) {
+			mc, ok := cs.Instr.Common().Args[0].(*ssa.MakeClosure)
+			if !ok {
+				continue
+			}
+			cb, _ := mc.Fn.(*ssa.Function)
+			if cb == nil || cb.Signature.Results().Len() != 1 {
+				continue
+			}
+			n++
+			bad := token.NoPos
+			for _, in := range instrsWhere(cb, isReturn) {
+				r := in.(*ssa.Return)
+				b, isB := constBool(unspill(r, 0))
+				if isB && b {
+					continue
+				}
+				found := false
+				forEachInstr(cb, false, func(_ *ssa.Function, x ssa.Instruction) {
+					st, isS := x.(*ssa.Store)
+					if !isS {
+						return
+					}
+					if fv, isFV := st.Addr.(*ssa.FreeVar); isFV && fv != nil && instrDominates(st, in) {
+						found = true
+					}
+				})
+				if !found {
+					bad = nearestPos(in)
+				}
+			}
+			c.Check(rule, ord.next(declaredFunc(fn), "range-ends-only-with-a-result"), cs.Instr.Pos(), bad == token.NoPos, "every answer other than true follows a store into a captured result variable",
+				"a callback given to HostSet.Range in "+fn.String()+" can answer false without having stored a result (at "+c.pos(bad)+"): false does not skip that host, it ends the scan, so with an unwanted (unhealthy) host early in the set the policy returns no host although healthy hosts follow")
+		}
+	}
+	if n == 0 {
+		c.Pass(rule, pkg+":no-range-callback-in-the-balancers", token.NoPos, "no HostSet.Range callback outside the subset builders today (the scans are index loops, C05.R4)")
+	}
+}
+
+// ---------------------------------------------------------------------------------------------------------------------
+// C13.R33 (seed C13-15): the context a client hello gets is found by walking the contexts in configuration order. A
+// name index consulted before the walk answers "the first context that has this exact name", not "the first ready
+// context that matches exactly or by wildcard label": a later exact context beats an earlier wildcard one and its
+// client-auth mode, CA and ALPN apply. Clause: the receiver of every GetTLSConfigContext call in
+// serverContextManager.GetConfigForClient is - through phis - an element loaded from mng.providers (or nil); never the
+// result of a map look-up.
+func c13ContextChosenByTheOrderedWalk(c *Ctx) {
+	const rule = "C13.R33"
+	c.Rule(rule, "GetConfigForClient answers only with a provider it reached by walking mng.providers in order (no name-index look-up in front of the walk)", 3)
+	fn := c.M("pkg/mtls", "serverContextManager", "GetConfigForClient")
+	if fn == nil {
+		c.Unresolved(rule, "serverContextManager.GetConfigForClient")
+		return
+	}
+	var origin func(v ssa.Value, seen map[ssa.Value]bool) string
+	origin = func(v ssa.Value, seen map[ssa.Value]bool) string {
+		if seen[v] {
+			return ""
+		}
+		seen[v] = true
+		switch x := v.(type) {
+		case *ssa.Const:
+			return ""
+		case *ssa.Phi:
+			for _, e := range x.Edges {
+				if bad := origin(e, seen); bad != "" {
+					return bad
+				}
+			}
+			return ""
+		case *ssa.UnOp:
+			if x.Op == token.MUL {
+				if ia, isIA := x.X.(*ssa.IndexAddr); isIA {
+					if _, f, _, isF := loadedField(ia.X); isF && f == "providers" {
+						return ""
+					}
+				}
+			}
+		case *ssa.Extract:
+			if _, isL := x.Tuple.(*ssa.Lookup); isL {
+				return "a map look-up"
+			}
+			if nx, isN := x.Tuple.(*ssa.Next); isN {
+				// range over the providers slice: go/ssa ranges a slice by index, a Next only appears for maps/strings
+				_ = nx
+				return "a map iteration"
+			}
+		case *ssa.Lookup:
+			return "a map look-up"
+		}
+		return v.String()
+	}
+	n := 0
+	ord := ordCounter{}
+	for _, cs := range callsIn(fn, false, func(cc *ssa.CallCommon) bool { return cc.IsInvoke() && cc.Method.Name() == "GetTLSConfigContext" }) {
+		n++
+		bad := origin(cs.Instr.Common().Value, map[ssa.Value]bool{})
+		c.Check(rule, ord.next(fn, "provider-from-the-ordered-walk"), cs.Instr.Pos(), bad == "", "the provider is an element of mng.providers reached by the walk",
+			"GetConfigForClient answers with a provider obtained from "+bad+" instead of the walk over mng.providers: an index by exact name cannot know that an earlier context matches the name by a wildcard label, so a later context - with its own client-auth mode, CA and ALPN - is presented for names the earlier one covers")
+	}
+	if n < 3 {
+		c.Unresolved(rule, fmt.Sprintf("GetTLSConfigContext calls in GetConfigForClient: %d found, 3 expected", n))
+	}
+}
+
+// ---------------------------------------------------------------------------------------------------------------------
+// C06.R13 (seed C06-15): whether a weighted balancer runs without its EDF scheduler is decided by configuration alone.
+// The scheduler is built once per host set; the effective weight of a host - its configured weight times the slow-start
+// factor - changes while the balancer lives (a host that recovers from a failed health check re-enters its window, the
+// balancer is not rebuilt). A skip decided from the factors of the moment ("no host is in its window right now") leaves
+// a balancer without scheduler to serve a host set whose effective weights differ later: plain round robin, the
+// bounded-lag guarantee is gone. Clause: the conditions under which EdfLoadBalancer.refresh returns before it builds the
+// scheduler read only the host count, the configured weights (hostWeightsAreEqual) and the slow-start *mode*: no guard
+// derives from a slow-start factor function, from a clock, or from a host's health-check time.
+func c06SchedulerSkipDecidedByConfiguration(c *Ctx) {
+	const rule = "C06.R13"
+	c.Rule(rule, "EdfLoadBalancer.refresh skips the scheduler only on configuration (host count, equal configured weights, no slow-start mode), never on the slow-start factors of the moment", 2)
+	pkg := "pkg/upstream/cluster"
+	fn := c.M(pkg, "EdfLoadBalancer", "refresh")
+	if fn == nil {
+		c.Unresolved(rule, "EdfLoadBalancer.refresh")
+		return
+	}
+	// functions that look at the state of the moment: they reach time.Now / time.Since, a slow-start factor, or a host's
+	// LastHealthCheckPassTime
+	momentary := func(callee *ssa.Function) string {
+		why := ""
+		for f := range staticReach([]*ssa.Function{callee}, "") {
+			forEachInstr(f, true, func(_ *ssa.Function, in ssa.Instruction) {
+				if u, isU := in.(*ssa.UnOp); isU && u.Op == token.MUL {
+					if g, isG := u.X.(*ssa.Global); isG && strings.Contains(strings.ToLower(g.Name()), "slowstart") {
+						why = "the slow-start factor table " + g.Name()
+					}
+				}
+				ci, ok := in.(ssa.CallInstruction)
+				if !ok {
+					return
+				}
+				nm := calleeName(ci.Common())
+				switch {
+				case strings.HasSuffix(nm, "time.Now") || strings.HasSuffix(nm, "time.Since"):
+					why = "a clock read"
+				case methodName(ci.Common()) == "LastHealthCheckPassTime":
+					why = "a host's last health-check pass time"
+				case ci.Common().StaticCallee() == nil && !ci.Common().IsInvoke():
+					// a call through a function value taken from the slow-start factory table
+					if derivesFrom(ci.Common().Value, func(v ssa.Value) bool {
+						if g, isG := v.(*ssa.Global); isG {
+							return strings.Contains(strings.ToLower(g.Name()), "slowstart")
+						}
+						return false
+					}) {
+						why = "a slow-start factor function"
+					}
+				}
+			})
+		}
+		return why
+	}
+	n := 0
+	ord := ordCounter{}
+	var sched ssa.Instruction
+	for _, cs := range callsIn(fn, false, func(cc *ssa.CallCommon) bool { return strings.HasSuffix(calleeName(cc), "newEdfScheduler") }) {
+		sched = cs.Instr
+	}
+	if sched == nil {
+		c.Unresolved(rule, "the newEdfScheduler call of EdfLoadBalancer.refresh")
+		return
+	}
+	for _, in := range instrsWhere(fn, isReturn) {
+		if instrDominates(sched, in) {
+			continue // the normal end, after the scheduler was built
+		}
+		n++
+		bad := ""
+		for _, g := range guardsAt(in.Block()) {
+			derivesFrom(g.Cond, func(v ssa.Value) bool {
+				cl, isC := v.(*ssa.Call)
+				if !isC {
+					return false
+				}
+				if callee := cl.Common().StaticCallee(); callee != nil && callee.Pkg == fn.Pkg && len(callee.Blocks) > 0 {
+					if why := momentary(callee); why != "" {
+						bad = callee.Name() + " (reads " + why + ")"
+					}
+				}
+				return false
+			})
+		}
+		c.Check(rule, ord.next(fn, "scheduler-skipped-on-configuration-only"), nearestPos(in), bad == "", "the guards of this early return read configuration only",
+			"EdfLoadBalancer.refresh leaves the balancer without scheduler under a condition computed by "+bad+": the slow-start factor of a host changes while the balancer lives (a host that recovers re-enters its window and nothing rebuilds the balancer), so a skip decided from the factors of the moment serves plain round robin to hosts whose effective weights differ - the bounded-lag guarantee of weighted round robin is lost until the next host update")
+	}
+	if n < 2 {
+		c.Unresolved(rule, fmt.Sprintf("early returns of EdfLoadBalancer.refresh in front of newEdfScheduler: %d found, 2 expected", n))
+	}
+}
+
+// ---------------------------------------------------------------------------------------------------------------------
+// C03.R27 = C17.R32 (seed C03-15): the global timeout the timer is armed with is the one parseProxyTimeout produced.
+// parseProxyTimeout ends with the sanitising step (a value <= 0 becomes the default) that onUpstreamRequestSent's guard
+// `GlobalTimeout > 0` relies on: for every value it can return a timer is armed. A later adjustment of the field ("the
+// budget of the whole request": minus the time already spent) can make it non-positive again - the guard then silently
+// arms nothing, the request is sent, and with no per-try timeout a silent upstream is waited for without end. Clause:
+// in pkg/proxy the field Timeout.GlobalTimeout is stored into only by parseProxyTimeout.
+func globalTimeoutWrittenOnlyByItsParser(c *Ctx, rule string) {
+	c.Rule(rule, "Timeout.GlobalTimeout is written only by parseProxyTimeout, whose last step makes it positive (every value the arming guard sees arms a timer)", 3)
+	pkg := "pkg/proxy"
+	n := 0
+	for _, fn := range c.PkgFuncs(pkg) {
+		if len(fn.Blocks) == 0 {
+			continue
+		}
+		ord := ordCounter{}
+		df := declaredFunc(fn)
+		for _, st := range storesToField(fn, "Timeout", "GlobalTimeout", false) {
+			n++
+			c.Check(rule, ord.next(df, "global-timeout-written-by-its-parser"), st.Pos(), df.Name() == "parseProxyTimeout", "a store of parseProxyTimeout",
+				df.String()+" changes Timeout.GlobalTimeout after parseProxyTimeout has made it positive: onUpstreamRequestSent arms the global timer only for a value > 0 and says nothing otherwise, so a request whose adjusted timeout is zero or negative is sent upstream with no global timer - with no per-try timeout a silent upstream is waited for without end, no reply, the stream stays active")
+		}
+	}
+	if n < 3 {
+		c.Unresolved(rule, fmt.Sprintf("stores into Timeout.GlobalTimeout in %s: %d found, at least 3 expected (route, header / variable, default)", pkg, n))
+	}
+}
+
+// ---------------------------------------------------------------------------------------------------------------------
+// C01.R28 (seed C01-15): the byte the tls inspector peeked is the first byte of the client's stream, and the read that
+// finds it pending hands it over - whatever the connection has next. A Read that reports (0, err) while the byte is
+// pending makes a one-byte stream vanish: connection.doRead dispatches what arrives together with EOF or a timeout, but
+// there is nothing to dispatch. Clause: in (*mtls.Conn).Read every return reachable from the edge on which haspeek was
+// found set - not counting paths through a len(b) == 0 edge - returns a count with lower bound 1 (constants, sums, and
+// phis restricted to the predecessors on such paths; the count of the inner read counts as 0).
+func c01PeekedByteAlwaysHandedOver(c *Ctx) {
+	const rule = "C01.R28"
+	c.Rule(rule, "mtls.Conn.Read: every read that finds the inspector's peeked byte pending returns it (count >= 1 on every such path)", 2)
+	fn := c.M("pkg/mtls", "Conn", "Read")
+	if fn == nil {
+		c.Unresolved(rule, "(*mtls.Conn).Read")
+		return
+	}
+	// the edge: If on a load of Conn.haspeek (possibly negated)
+	var start []*ssa.BasicBlock
+	for _, b := range fn.Blocks {
+		if len(b.Instrs) == 0 {
+			continue
+		}
+		ifi, ok := b.Instrs[len(b.Instrs)-1].(*ssa.If)
+		if !ok {
+			continue
+		}
+		for _, g := range normGuard(Guard{Cond: ifi.Cond, True: true, If: ifi}) {
+			if _, f, _, isF := loadedField(g.Cond); isF && f == "haspeek" {
+				if g.True {
+					start = append(start, b.Succs[0])
+				} else {
+					start = append(start, b.Succs[1])
+				}
+			}
+		}
+	}
+	if len(start) == 0 {
+		c.Unresolved(rule, "the test of Conn.haspeek in (*mtls.Conn).Read")
+		return
+	}
+	isLenZeroEdge := func(from *ssa.BasicBlock, idx int) bool {
+		ifi, ok := from.Instrs[len(from.Instrs)-1].(*ssa.If)
+		if !ok {
+			return false
+		}
+		for _, g := range normGuard(Guard{Cond: ifi.Cond, True: idx == 0, If: ifi}) {
+			b, isB := g.Cond.(*ssa.BinOp)
+			if !isB {
+				continue
+			}
+			k, isK := constInt(b.Y)
+			cl, isC := b.X.(*ssa.Call)
+			if !isK || !isC {
+				continue
+			}
+			if bi, isBi := cl.Call.Value.(*ssa.Builtin); !isBi || bi.Name() != "len" {
+				continue
+			}
+			if k == 0 && ((b.Op == token.EQL && g.True) || (b.Op == token.NEQ && !g.True)) {
+				return true
+			}
+		}
+		return false
+	}
+	reach := map[*ssa.BasicBlock]bool{}
+	work := append([]*ssa.BasicBlock(nil), start...)
+	for len(work) > 0 {
+		b := work[len(work)-1]
+		work = work[:len(work)-1]
+		if reach[b] {
+			continue
+		}
+		reach[b] = true
+		for i, s := range b.Succs {
+			if len(b.Succs) == 2 && isLenZeroEdge(b, i) {
+				continue
+			}
+			work = append(work, s)
+		}
+	}
+	var lb func(v ssa.Value, seen map[ssa.Value]bool) int64
+	lb = func(v ssa.Value, seen map[ssa.Value]bool) int64 {
+		if seen[v] {
+			return 0
+		}
+		seen[v] = true
+		switch x := v.(type) {
+		case *ssa.Const:
+			if k, ok := constInt(x); ok {
+				return k
+			}
+		case *ssa.BinOp:
+			if x.Op == token.ADD {
+				return lb(x.X, seen) + lb(x.Y, seen)
+			}
+		case *ssa.Phi:
+			first := true
+			var m int64
+			for i, e := range x.Edges {
+				pred := x.Block().Preds[i]
+				onPath := reach[pred]
+				for _, s := range start { // the edge itself enters a start block from outside
+					if x.Block() == s && !reach[pred] {
+						onPath = false
+					}
+				}
+				if !onPath {
+					continue
+				}
+				if v := lb(e, seen); first || v < m {
+					m, first = v, false
+				}
+			}
+			return m
+		}
+		return 0
+	}
+	n := 0
+	ord := ordCounter{}
+	for _, in := range instrsWhere(fn, isReturn) {
+		if !reach[in.Block()] {
+			continue
+		}
+		n++
+		r := in.(*ssa.Return)
+		v := lb(unspill(r, 0), map[ssa.Value]bool{})
+		c.Check(rule, ord.next(fn, "peeked-byte-handed-over"), nearestPos(in), v >= 1, fmt.Sprintf("the returned count is at least %d", v),
+			"(*mtls.Conn).Read can return a count of 0 while the byte the tls inspector peeked is still pending: a plaintext client that sends a single byte and closes (or waits) gets that byte neither dispatched with the EOF / timeout of the read nor later - the stream relayed upstream is empty")
+	}
+	if n < 2 {
+		c.Unresolved(rule, fmt.Sprintf("returns of (*mtls.Conn).Read behind the haspeek edge: %d found, 2 expected", n))
+	}
+}
+
+// ---------------------------------------------------------------------------------------------------------------------
+// C15.R21 (seed C15-15): the pre-index builder only ever adds nodes to its trie. A node of the trie is at once the subset
+// of the key/value prefix that leads to it and the parent of every longer prefix; storing a freshly made entry at a
+// position that already holds one throws the children of the old one away - with selectors [xlarge, version] before
+// [version] the subsets of the longer selector disappear and requests for them get the fallback. Clause: in the methods
+// of subsetLoadBalancerBuilder every store into a ValueSubsetMap (a map whose elements are LBSubsetEntry) either goes
+// into a map made in the same function or lies on the not-found edge of a comma-ok look-up of the same map and key.
+func c15TrieNodesAreOnlyAdded(c *Ctx) {
+	const rule = "C15.R21"
+	c.Rule(rule, "the pre-index builder stores a subset entry into its trie only where a look-up of that position found none (an existing node and its children are never replaced)", 1)
+	pkg := "pkg/upstream/cluster"
+	n := 0
+	for _, fn := range c.PkgFuncs(pkg) {
+		if fn.Signature.Recv() == nil || !strings.Contains(typeName(fn.Signature.Recv().Type()), "subsetLoadBalancerBuilder") || len(fn.Blocks) == 0 {
+			continue
+		}
+		ord := ordCounter{}
+		forEachInstr(fn, false, func(_ *ssa.Function, in ssa.Instruction) {
+			mu, ok := in.(*ssa.MapUpdate)
+			if !ok {
+				return
+			}
+			mt, isM := mu.Map.Type().Underlying().(*types.Map)
+			if !isM || !strings.HasSuffix(mt.Elem().String(), "LBSubsetEntry") {
+				return
+			}
+			n++
+			good := ""
+			if _, isMk := mu.Map.(*ssa.MakeMap); isMk {
+				good = "the map is made in this function"
+			}
+			if good == "" {
+				for _, g := range guardsAt(mu.Block()) {
+					ex, isE := g.Cond.(*ssa.Extract)
+					if !isE || ex.Index != 1 || g.True {
+						continue
+					}
+					lk, isL := ex.Tuple.(*ssa.Lookup)
+					if isL && lk.CommaOk && lk.X == mu.Map && sameFieldRead(lk.Index, mu.Key) {
+						good = "on the not-found edge of a look-up of the same map and key"
+					}
+				}
+			}
+			c.Check(rule, ord.next(fn, "trie-node-only-added"), mu.Pos(), good != "", good,
+				fn.String()+" stores a subset entry into the trie without having found the position empty: a node that is already there is the parent of every longer key/value prefix, replacing it drops those subsets - which ones depends on the order of the selectors - and requests for them fall back (any host, or none) although matching hosts exist")
+		})
+	}
+	if n == 0 {
+		c.Unresolved(rule, "no store into a ValueSubsetMap in the methods of subsetLoadBalancerBuilder")
+	}
+}
+
+// sameFieldRead: the same value, or two reads of the same field of the same object (go/ssa does no CSE: kv.T2 written
+// twice is two loads).
+func sameFieldRead(a, b ssa.Value) bool {
+	if a == b {
+		return true
+	}
+	ta, fa, ba, okA := loadedField(a)
+	tb, fb, bb, okB := loadedField(b)
+	return okA && okB && ta == tb && fa == fb && (ba == bb || sameFieldRead(ba, bb))
+}
+
+// ---------------------------------------------------------------------------------------------------------------------
+// C11.O28 (seed C11-15): every turn of the read loop looks at the listener's stop channel. The hand-over of a connection
+// to the new process is driven from the read loop: when stopChan is closed the loop arms transferTime and later calls
+// transfer(). A turn that can go back to the top of the loop without passing that test - the read-timeout branch ends in
+// `continue` - means a quiet connection never gets there: it is not handed over and dies, with whatever it had
+// half-received, when the old process exits. Clause: in (*connection).startReadLoop the select that receives from
+// c.stopChan dominates every source of a back edge of the loop it lies in.
+func c11EveryTurnOfTheReadLoopTestsTheStopChannel(c *Ctx) {
+	const rule = "C11.O28"
+	c.Rule(rule, "every turn of the read loop passes the test of the listener's stop channel (the hand-over is reached by quiet connections too)", 1)
+	fn := c.M("pkg/network", "connection", "startReadLoop")
+	if fn == nil {
+		c.Unresolved(rule, "(*connection).startReadLoop")
+		return
+	}
+	var sel *ssa.Select
+	forEachInstr(fn, false, func(_ *ssa.Function, in ssa.Instruction) {
+		s, ok := in.(*ssa.Select)
+		if !ok {
+			return
+		}
+		for _, st := range s.States {
+			if _, f, _, isF := loadedField(st.Chan); isF && f == "stopChan" {
+				sel = s
+			}
+		}
+	})
+	if sel == nil {
+		c.Unresolved(rule, "the select on c.stopChan in startReadLoop")
+		return
+	}
+	n := 0
+	ord := ordCounter{}
+	for _, h := range fn.Blocks {
+		for _, p := range h.Preds {
+			if !h.Dominates(p) {
+				continue // not a back edge
+			}
+			// the loop of h must contain the select
+			if !h.Dominates(sel.Block()) || !reachableFrom(sel.Block())[h] {
+				continue
+			}
+			n++
+			ok := sel.Block().Dominates(p)
+			c.Check(rule, ord.next(fn, "turn-passes-the-stop-test"), nearestPosOfBlock(p), ok, "the stop-channel select dominates this back edge",
+				"startReadLoop can start another turn (from "+c.pos(nearestPosOfBlock(p))+") without having looked at c.stopChan in the turn that ends: a connection on which only read timeouts happen - a quiet long-lived connection - never arms or reaches its hand-over during a hot upgrade; it stays with the old process and is cut, together with a request it has half received, when that process exits")
+		}
+	}
+	if n == 0 {
+		c.Unresolved(rule, "no loop around the stop-channel select in startReadLoop")
+	}
+}
+
+func nearestPosOfBlock(b *ssa.BasicBlock) token.Pos {
+	for i := len(b.Instrs) - 1; i >= 0; i-- {
+		if p := nearestPos(b.Instrs[i]); p != token.NoPos {
+			return p
+		}
+	}
+	return token.NoPos
+}
+
+// ---------------------------------------------------------------------------------------------------------------------
+// C08.B16 (seed C08-15): the HTTP/2 Dispatch loops go on to the next frame only after a frame that was decoded without
+// error. MFramer.ReadFrame consumes a frame only on success; a frame it refuses with a stream error can still be in the
+// read buffer (known finding C08.B11: the parsers' StreamError exits lie in front of the Drain). While that is so, a
+// Dispatch that carries on after an error decodes the same bytes again, for ever: the read goroutine spins, writes an
+// RST_STREAM per turn and never notices a close - 13 bytes from a peer. Clause, evaluated while any stream-error exit of
+// the framer is unconsumed: in both Dispatch methods of pkg/stream/http2 every back edge of the decode loop lies under
+// `err == nil` for the error Decode returned.
+func c08H2DispatchGoesOnOnlyAfterSuccess(c *Ctx) {
+	const rule = "C08.B16"
+	c.Rule(rule, "HTTP/2 Dispatch: while a refused frame can stay in the read buffer, the decode loop is continued only under err == nil (no re-decode of the same bytes for ever)", 2)
+	unconsumed := 0
+	for _, o := range c.Obls {
+		if o.Rule == "C08.B11" && !o.OK {
+			unconsumed++
+		}
+	}
+	pkg := "pkg/stream/http2"
+	n := 0
+	for _, tn := range []string{"serverStreamConnection", "clientStreamConnection"} {
+		fn := c.M(pkg, tn, "Dispatch")
+		if fn == nil {
+			c.Unresolved(rule, tn+".Dispatch")
+			continue
+		}
+		var dec *ssa.Call
+		for _, cs := range callsIn(fn, false, func(cc *ssa.CallCommon) bool { return methodName(cc) == "Decode" }) {
+			if cl, ok := cs.Instr.(*ssa.Call); ok {
+				dec = cl
+			}
+		}
+		if dec == nil {
+			c.Unresolved(rule, "the Decode call of "+tn+".Dispatch")
+			continue
+		}
+		var errv ssa.Value
+		for _, r := range refs(dec) {
+			if ex, ok := r.(*ssa.Extract); ok && ex.Index == 1 {
+				errv = ex
+			}
+		}
+		ord := ordCounter{}
+		for _, h := range fn.Blocks {
+			for _, p := range h.Preds {
+				if !h.Dominates(p) || !h.Dominates(dec.Block()) || !reachableFrom(dec.Block())[h] {
+					continue
+				}
+				n++
+				under := false
+				for _, g := range guardsAt(p) {
+					b, isB := g.Cond.(*ssa.BinOp)
+					if !isB || (b.Op != token.EQL && b.Op != token.NEQ) || errv == nil {
+						continue
+					}
+					if (b.X == errv && isNilConst(b.Y)) || (b.Y == errv && isNilConst(b.X)) {
+						if (b.Op == token.EQL) == g.True {
+							under = true
+						}
+					}
+				}
+				ok := under || unconsumed == 0
+				wit := "the back edge lies under err == nil"
+				if !under {
+					wit = "every stream-error exit of the framer consumes its frame (C08.B11 holds), carrying on after an error makes progress"
+				}
+				c.Check(rule, ord.next(fn, "next-frame-only-after-success"), nearestPosOfBlock(p), ok, wit,
+					fmt.Sprintf("%s.Dispatch can go on to the next Decode after an error while %d stream-error exit(s) of MFramer.ReadFrame leave the refused frame in the read buffer (C08.B11): the same bytes are decoded and refused again without end - the connection's read goroutine spins at full speed, writes a RST_STREAM per turn and never sees the close; a 13-byte WINDOW_UPDATE with increment 0 is enough", tn, unconsumed))
+			}
+		}
+	}
+	if n < 2 {
+		c.Unresolved(rule, fmt.Sprintf("back edges of the HTTP/2 Dispatch loops: %d found, 2 expected", n))
 	}
 }
